@@ -323,6 +323,30 @@ void Exec::step(const Step &s) {
     return;
   }
   if (t == "adv") { w.advance_ms(s.N(0, 0)); md.now_us = K->now_us; return; }
+  if (t == "oombus") {
+    // process the operation just issued, with the allocation number oom.k of this step failing
+    // (oom.k = -1: fault-free, count the allocations instead)
+    long k = plan.C("oom.k", -1);
+    md_before = md;
+    cursor_before.clear();
+    for (auto &c : w.clients) cursor_before.push_back(c.got_checked);
+    next_sent_before = next_sent;
+    oom_client = oom_op_valid ? pick(oom_op.a) : -1;
+    oom_armed = true;
+    if (k >= 0) { w.oom_at = (int)k; oom_retry_possible = true; }
+    else w.measure_allocs = true;
+    w.bus_iterate((int)s.N(0, 4), (uint64_t)s.N(1, 1), simk::IoProfile());
+    w.measure_allocs = false;
+    oom_retry_possible = false;
+    if (k < 0) counters["oom_n"] = (uint64_t)w.last_alloc_count;
+    resolve_choices();
+    return;
+  }
+  if (t == "oomcheck") { resolve_oom(); return; }
+  if (t == "oomretry") {
+    if (oom_outcome == "nomemory" && oom_op_valid) { counters["oom_retried"]++; step(oom_op); }
+    return;
+  }
   int ci = pick(s.a);
   if (ci < 0) return;
   bw::Client &c = w.C(ci);
@@ -495,12 +519,14 @@ void Exec::sync_names() {
     std::string n = w.bus_side_name((int)i);
     if (n.empty()) continue;
     if (n[0] != ':') fail("oracle:C03:unique-name-form", "c%zu was given the unique name '%s'", i, n.c_str());
-    if (!ever_names.insert(n).second) fail("oracle:C03:unique-name-reused", "unique name %s was given to a second connection", n.c_str());
+    auto ins = ever_names.insert({n, (int)i});
+    if (!ins.second && ins.first->second != (int)i) fail("oracle:C03:unique-name-reused", "unique name %s, once c%d's, was given to c%zu", n.c_str(), ins.first->second, i);
     md.uniq[i] = n;
   }
 }
 
 void Exec::resolve_choices() {
+  if (oom_armed) return;   // which world we are in is decided first (resolve_oom)
   sync_names();
   for (auto &ch : pending_choices) {
     if (ch.conn >= 0) {
@@ -661,6 +687,70 @@ void Exec::check_hostile(int ci) {
   fail("oracle:C10:invalid-sender-not-disconnected", "c%d delivered an invalid message (%s at stream offset %zu) and is still connected after the bus went idle", ci, reason.c_str(), pos);
 }
 
+// C14: after the operation ran under an injected allocation failure, exactly two worlds are
+// admissible: everything it entails happened (the failed allocation was retried or optional), or
+// nothing happened and the requester was told NoMemory.
+void Exec::resolve_oom() {
+  if (!oom_armed) return;
+  oom_armed = false;
+  long k = plan.C("oom.k", -1);
+  bm::Model md_after = md;
+  std::vector<size_t> cur_save;
+  for (auto &c : w.clients) cur_save.push_back(c.got_checked);
+  core::Violation first{"", ""};
+  bool complete_ok = true;
+  try {
+    check_point(false);
+  } catch (core::Violation &v) {
+    if (v.cls.compare(0, 7, "oracle:") != 0) throw;   // nonquiescent etc. are never admissible
+    complete_ok = false;
+    first = v;
+  }
+  if (complete_ok) { oom_outcome = "complete"; counters["oom_outcome_complete"]++; return; }
+  if (k < 0) throw first;                             // fault-free pass: no excuse
+  // second world: nothing happened, requester gets NoMemory (if it is still there to be told)
+  md = md_before;
+  pending_choices.clear();
+  next_sent = next_sent_before;
+  for (size_t i = 0; i < w.clients.size() && i < cursor_before.size(); i++) w.clients[i].got_checked = cursor_before[i];
+  if (oom_client >= 0 && oom_op_valid) {
+    bw::Client &c = w.C(oom_client);
+    if (oom_op.t == "close") {
+      // a disconnect cannot fail: the bus must finish it once memory is back
+      throw core::Violation{"oracle:C14:disconnect-not-completed", "after an allocation failure while handling a disconnect: " + first.detail};
+    }
+    // the message was consumed: advance the send cursor past it and expect the NoMemory error
+    if (next_sent[(size_t)oom_client] < c.sent.size()) {
+      const bw::Sent &sm = c.sent[next_sent[(size_t)oom_client]];
+      next_sent[(size_t)oom_client]++;
+      c.wire_pos = sm.end_off_stream;
+      md.event++;
+      if (md.conns[(size_t)oom_client].alive) {
+        bm::Exp e;
+        e.from_bus = true;
+        e.m = wire::Msg::error(1, sm.m.serial, "", "org.freedesktop.DBus.Error.NoMemory");
+        e.m.set_field(wire::F_SENDER, wire::Value::string(bm::BUS));
+        e.any_destination = true;
+        e.ignore_body = true;
+        e.what = "NoMemory error";
+        e.prop = "C14";
+        e.optional = sm.m.type != wire::T_CALL;
+        md.exp[(size_t)oom_client].push_back(bm::Group{md.event, {e}});
+      }
+    }
+  }
+  try {
+    check_point(false);
+  } catch (core::Violation &v2) {
+    if (v2.cls.compare(0, 7, "oracle:") != 0) throw;
+    throw core::Violation{"oracle:C14:neither-complete-nor-clean",
+                          "allocation " + std::to_string(k) + " of the operation failed; the outcome is neither the complete effect (" + first.cls + ": " + first.detail.substr(0, 600) +
+                              ") nor a clean NoMemory failure (" + v2.cls + ": " + v2.detail.substr(0, 600) + ")"};
+  }
+  oom_outcome = "nomemory";
+  counters["oom_outcome_nomemory"]++;
+}
+
 void Exec::check_point(bool final) {
   (void)final;
   w.quiesce();
@@ -738,6 +828,7 @@ core::RunResult Exec::run() {
     setup();
     for (auto &s : plan.steps) {
       tr.ev("step %s %d", s.t.c_str(), s.a);
+      if (s.t != "oombus" && s.t != "oomcheck" && s.t != "oomretry" && s.t != "check" && s.t != "bus" && s.t != "drain" && s.t != "deliver") { oom_op = s; oom_op_valid = true; }
       step(s);
     }
     check_point(true);
@@ -747,6 +838,12 @@ core::RunResult Exec::run() {
     res.ok = false;
     res.cls = v.cls;
     res.detail = v.detail;
+    // in a fault-injected execution every later disagreement is a consequence of the injected
+    // allocation failure: it is C14's statement (state unchanged / retry succeeds / nothing leaks) that is broken
+    if (plan.C("oom.k", -1) >= 0 && !oom_outcome.empty() && v.cls.compare(0, 7, "oracle:") == 0 && v.cls.compare(0, 11, "oracle:C14:") != 0) {
+      res.cls = "oracle:C14:after-" + oom_outcome + ":" + v.cls.substr(7);
+    }
+    if (plan.C("oom.k", -1) >= 0 && v.cls.compare(0, 5, "leak:") == 0) res.cls = "oracle:C14:" + v.cls;
   }
   res.hash = tr.h;
   res.sim_us = K ? 0 : 0;
@@ -846,8 +943,48 @@ void Exec::install_policy_hooks() {
 void Exec::finish() {}
 
 core::RunResult execute(const core::Plan &plan, bool log) {
-  Exec ex(plan, log);
-  return ex.run();
+  if (plan.C("oom.enumerate", 0) == 0) {
+    Exec ex(plan, log);
+    return ex.run();
+  }
+  // C14 fault enumeration: fault-free pass counts the allocations n of the operation, then the plan
+  // is re-executed n times with allocation k = 0..n-1 of that operation failing
+  core::Plan p = plan;
+  p.cfg["oom.enumerate"] = "0";
+  p.cfg["oom.k"] = "-1";
+  core::RunResult base;
+  {
+    Exec ex(p, log);
+    base = ex.run();
+  }
+  if (!base.ok) { base.detail = "[oom.k=-1] " + base.detail; return base; }
+  long n = (long)base.counters["oom_n"];
+  base.counters["oom_points"] = (uint64_t)n;
+  base.counters["oom_runs"] = 0;
+  std::set<uint64_t> hashes;
+  for (long k = 0; k < n; k++) {
+    if (getenv("SIM_OOMK_TRACE")) { printf("OOMK %ld\n", k); fflush(stdout); }
+    p.cfg["oom.k"] = std::to_string(k);
+    Exec ex(p, false);
+    core::RunResult r = ex.run();
+    base.counters["oom_runs"]++;
+    hashes.insert(r.hash);
+    for (auto &kv : r.counters)
+      if (kv.first.compare(0, 4, "oom_") == 0 && kv.first != "oom_n") base.counters[kv.first] += kv.second;
+    if (!r.ok) {
+      r.detail = "[oom.k=" + std::to_string(k) + "] " + r.detail;
+      r.counters = base.counters;
+      if (log) {   // show the failing execution, not the fault-free one
+        Exec again(p, true);
+        core::RunResult lr = again.run();
+        r.sample = lr.sample;
+      } else r.sample = "HISTORY " + r.sample + "\n";
+      return r;
+    }
+  }
+  base.counters["oom_distinct_traces"] = hashes.size();
+  base.nontrivial = n > 0;
+  return base;
 }
 
 }  // namespace checks
